@@ -1,21 +1,216 @@
 /-
-  S for C09 (stub, replaced below): reference writer for configuration text.
+  S for C09: the reference writer for configuration text, written from the file format only.
+
+  A forest of named sections and name=value options is written in one of three section styles
+
+    brace   `name {` … `}`                 (format type '*', default description: `{*} = ` + '#' comments)
+    sep     `[name]` until the next `[`     (format type ' ', description `[ ] = #`; one level of sections)
+    bar     `|name`  until the next `|`     (format type 'x', description `|x| = #`; one level of sections)
+    enc     options only                    (format type 'x' with different start and end characters,
+                                             description `{x} = #`: a section opened by `{name` can not be
+                                             closed in this format, so only option lists are expressible)
+
+  with insignificant decoration chosen per line by a `Decor`: blank and comment lines in front of the
+  line, indentation, blanks around the assignment character, trailing blanks and a trailing comment.
+  Values are written plain when that is unambiguous and in double quotes (quotes inside escaped by a
+  backslash) otherwise.
+
+  Core Lean only.
 -/
 import MptModel.Spec.ConfTree
 namespace Mpt.Render
-open Mpt.Conf
+open Mpt Mpt.Conf
 
 inductive Style where
-  | brace | sep | bar
+  | brace | sep | bar | enc
   deriving Repr, DecidableEq, Inhabited
 
 def Style.ofString : String → Option Style
-  | "brace" => some .brace | "sep" => some .sep | "bar" => some .bar | _ => none
+  | "brace" => some .brace | "sep" => some .sep | "bar" => some .bar | "enc" => some .enc | _ => none
 
-structure Decor where
-  id : Nat := 0
+def str (s : String) : List UInt8 := s.toUTF8.toList
 
-def decorOf (n : Nat) : Decor := { id := n }
-def render (_ : Style) (_ : Decor) (_ : Forest) : List UInt8 := []
+/-- the format description handed to `mpt_parse_node` for a style (`none` = default format) -/
+def Style.desc : Style → Option (List UInt8)
+  | .brace => none
+  | .sep => some (str "[ ] = #")
+  | .bar => some (str "|x| = #")
+  | .enc => some (str "{x} = #")
+
+/-- decoration of one line -/
+structure LineDecor where
+  before : List UInt8 := []   -- whole lines in front: blank lines and comment lines
+  indent : List UInt8 := []   -- blanks at the start of the line
+  pre    : List UInt8 := []   -- blanks between a name and the character behind it (`=`, `{`)
+  post   : List UInt8 := []   -- blanks between `=` and the value
+  trail  : List UInt8 := []   -- behind the element: blanks, optionally followed by `#` and a comment text
+  deriving Repr, Inhabited
+
+/-- decoration per output line (lines are numbered from 0 in writing order) -/
+abbrev Decor := Nat → LineDecor
+
+def noDecor : Decor := fun _ => {}
+
+def isBlank (c : UInt8) : Bool := c == 32 || c == 9
+def isSpace (c : UInt8) : Bool := c == 32 || (9 ≤ c && c ≤ 13)
+
+/-- `ws* ('#' non-newline*)?` -/
+def commentTail : List UInt8 → Bool
+  | [] => true
+  | c :: rest => if c == 35 then !rest.contains 10 else isBlank c && commentTail rest
+
+/-- blank lines and comment lines, each closed by a line feed.
+    State: 0 = at the start of a line, 1 = behind blanks, 2 = inside a comment. -/
+def insigFrom : Nat → List UInt8 → Bool
+  | st, [] => st == 0
+  | st, c :: rest =>
+    if c == 10 then insigFrom 0 rest
+    else if st == 2 then insigFrom 2 rest
+    else if c == 35 then insigFrom 2 rest
+    else isSpace c && insigFrom 1 rest
+
+def insignificantLines (l : List UInt8) : Bool := insigFrom 0 l
+
+/-- trailing decoration: blanks only, or at least one blank and then a comment -/
+def trailOk (l : List UInt8) : Bool :=
+  l.all isBlank || (match l with | c :: _ => isBlank c && commentTail l | [] => true)
+
+def LineDecor.ok (d : LineDecor) : Bool :=
+  insignificantLines d.before && d.indent.all isBlank && d.pre.all isBlank && d.post.all isBlank && trailOk d.trail
+
+def Decor.ok (d : Decor) : Prop := ∀ k, (d k).ok = true
+
+/-! ### values -/
+
+/-- a value that can be written as it is -/
+def plainOk (v : List UInt8) : Bool :=
+  !v.isEmpty && v.all (fun c => c != 0 && c != 10 && c != 34 && c != 39 && c != 35) &&
+    (match v.head?, v.getLast? with
+     | some a, some b => !isSpace a && !isSpace b
+     | _, _ => false)
+
+/-- quotes inside a quoted value get a backslash -/
+def escape : List UInt8 → List UInt8
+  | [] => []
+  | c :: rest => if c == 34 then 92 :: 34 :: escape rest else c :: escape rest
+
+def writeValue (v : List UInt8) : List UInt8 :=
+  if plainOk v then v else 34 :: escape v ++ [34]
+
+/-- a value the writer can express: no zero byte, and no backslash at the end when it has to be quoted -/
+def valueOk (v : List UInt8) : Bool :=
+  !v.isEmpty && !v.contains 0 && (plainOk v || v.getLast? != some 92)
+
+/-- names: letters, digits, `_` and `-`; not empty; short enough for an identifier -/
+def nameChar (c : UInt8) : Bool :=
+  (48 ≤ c && c ≤ 57) || (65 ≤ c && c ≤ 90) || (97 ≤ c && c ≤ 122) || c == 95 || c == 45
+def nameOk (n : List UInt8) : Bool := !n.isEmpty && n.all nameChar && n.length < 65535
+
+/-! ### lines -/
+def optionLine (d : LineDecor) (n : List UInt8) (v : Option (List UInt8)) : List UInt8 :=
+  d.before ++ d.indent ++ n ++ d.pre ++ [61] ++ d.post ++
+    (match v with | some x => (if x.isEmpty then [] else writeValue x) | none => []) ++ d.trail ++ [10]
+
+mutual
+/-- lines a tree takes in brace style -/
+def treeLines : Tree → Nat
+  | .node _ _ cs => if cs.isEmpty then 1 else 2 + braceLines cs
+/-- lines a forest takes in brace style -/
+def braceLines : Forest → Nat
+  | [] => 0
+  | t :: ts => treeLines t + braceLines ts
+end
+
+/-- `name {` -/
+def openLine (d : LineDecor) (n : List UInt8) : List UInt8 :=
+  d.before ++ d.indent ++ n ++ d.pre ++ [123] ++ d.trail ++ [10]
+/-- `}` -/
+def closeLine (d : LineDecor) : List UInt8 :=
+  d.before ++ d.indent ++ [125] ++ d.trail ++ [10]
+
+mutual
+/-- brace style, one tree starting at line `k` -/
+def renderTree (d : Decor) (k : Nat) : Tree → List UInt8
+  | .node n v cs =>
+    if cs.isEmpty then optionLine (d k) n v
+    else openLine (d k) n ++ renderBrace d (k + 1) cs ++ closeLine (d (k + 1 + braceLines cs))
+/-- brace style, a forest starting at line `k` -/
+def renderBrace (d : Decor) (k : Nat) : Forest → List UInt8
+  | [] => []
+  | t :: ts => renderTree d k t ++ renderBrace d (k + treeLines t) ts
+end
+
+/-- option lines of one section (flat styles) -/
+def renderOptions (d : Decor) : Nat → Forest → List UInt8
+  | _, [] => []
+  | k, (.node n v _) :: ts => optionLine (d k) n v ++ renderOptions d (k + 1) ts
+
+/-- flat styles: `open_` in front of a section name, `close` behind it -/
+def renderFlat (d : Decor) (open_ close : List UInt8) : Nat → Forest → List UInt8
+  | _, [] => []
+  | k, (.node n v cs) :: ts =>
+    if cs.isEmpty then optionLine (d k) n v ++ renderFlat d open_ close (k + 1) ts
+    else
+      ((d k).before ++ (d k).indent ++ open_ ++ n ++ close ++ (d k).trail ++ [10])
+        ++ renderOptions d (k + 1) cs ++ renderFlat d open_ close (k + 1 + cs.length) ts
+
+def render (style : Style) (d : Decor) (f : Forest) : List UInt8 :=
+  match style with
+  | .brace => renderBrace d 0 f
+  | .sep => renderFlat d [91] [93] 0 f
+  | .bar => renderFlat d [124] [] 0 f
+  | .enc => renderOptions d 0 f
+
+/-! ### which forests a style can express -/
+
+mutual
+/-- a node: admissible name; a leaf carries an admissible value, an empty one or none; a node with
+    children carries no value -/
+def treeOk : Tree → Bool
+  | .node n v cs =>
+    nameOk n &&
+      (if cs.isEmpty then (match v with | some x => x.isEmpty || valueOk x | none => true)
+       else v.isNone && nodesOk cs)
+def nodesOk : Forest → Bool
+  | [] => true
+  | t :: ts => treeOk t && nodesOk ts
+end
+
+def isLeaf : Tree → Bool
+  | .node _ _ cs => cs.isEmpty
+
+/-- flat styles: options in front, then sections; sections hold options only -/
+def flatShape : Forest → Bool
+  | [] => true
+  | (.node _ _ cs) :: ts =>
+    if cs.isEmpty then flatShape ts
+    else cs.all isLeaf && ts.all (fun t => !isLeaf t && t.children.all isLeaf)
+
+def admissible (style : Style) (f : Forest) : Bool :=
+  nodesOk f && (match style with | .brace => true | .enc => f.all isLeaf | _ => flatShape f)
+
+mutual
+/-- what is read back: a leaf without text has no value (an empty value and an empty section are the
+    same thing in the tree) -/
+def normTree : Tree → Tree
+  | .node n v cs =>
+    .node n (match v with | some x => if x.isEmpty then none else some x | none => none) (norm cs)
+def norm : Forest → Forest
+  | [] => []
+  | t :: ts => normTree t :: norm ts
+end
+
+/-! ### the finite family of decorations used by the correspondence run -/
+def decorOf (i : Nat) : Decor :=
+  match i with
+  | 0 => noDecor
+  | 1 => fun k => { indent := List.replicate (k % 3) 32, pre := [32], post := [32] }
+  | 2 => fun k => {
+      before := if k % 2 == 0 then str "\n  \n# a comment line\n" else str "\t#x\n",
+      indent := [9], pre := [32, 32], post := [9],
+      trail := if k % 3 == 0 then str "  # trailing" else if k % 3 == 1 then [32, 9] else [] }
+  | _ => fun k => {
+      before := if k == 0 then str "#!first line\n\n" else [],
+      indent := List.replicate (k % 2) 32, trail := if k % 2 == 0 then str " #" else [32] }
 
 end Mpt.Render
